@@ -4,6 +4,7 @@ CONSTANTS
   Filters = {1, 2, 3}
   K = 2
   Atomic = FALSE
+  PrivateConsts = TRUE
   MaxCalls = 4
 CONSTRAINT Bound
 INVARIANT NoCrossTalk
